@@ -12,7 +12,10 @@
 use fv_harness::common::*;
 
 mod explore;
+mod fields;
+mod ift;
 mod kernels;
+mod matrix;
 mod synth;
 
 use std::cell::RefCell;
